@@ -96,6 +96,11 @@ def find_cause_pep484585_container_args_1(
     # ....................{ SATISFY ~ empty                }....................
     # If either...
     if (
+        # This container is *NOT* a collection (e.g., a generator satisfying an
+        # "Iterable[...]" hint nested in a larger violating object) and thus
+        # neither sized nor safely reiterable, the type-checking code generated
+        # for this hint did *NOT* type-check the items of this container *OR*...
+        not isinstance(cause.pith, Collection) or
         # This container is empty, *ALL* items of this container (of which there
         # are none) are necessarily valid *OR*...
         #
